@@ -365,6 +365,13 @@ class TCPTransport(Transport):
             self._readonlyNodesCounter += 1
 
         self._unknownConnections.discard(conn)
+        oldConn = self._connections.get(node)
+        if oldConn is not None:
+            # A previous connection of this node is still registered (typically half-open: the peer gave up on it and dialled again).
+            # Close it without reconnecting, so that the disconnect is reported and nothing can be delivered over it any more.
+            self._preventConnectNodes.add(node)
+            oldConn.disconnect()
+            self._preventConnectNodes.discard(node)
         self._connections[node] = conn
         conn.setOnMessageReceivedCallback(functools.partial(self._onMessageReceived, node))
         if not readonly:
